@@ -10,6 +10,7 @@
 #include "types.h"
 #include "array.h"
 #include "values.h"
+#include <sys/uio.h>
 
 #define NSLOT 16
 static MPT_INTERFACE(metatype) *slot_mt[NSLOT];
@@ -60,7 +61,11 @@ static int has_ci(const char *s, const char *w)
 }
 static int unmodelled(const char *s)
 {
-	if (has_ci(s, "inf") || has_ci(s, "nan") || has_ci(s, "0x") || has_ci(s, "file")) return 1;
+	/* "nan" is modelled (as "not a number": refused) in plain value lists, i.e. texts that do not start with a keyword */
+	const char *f = s;
+	while (*f == ' ' || (*f >= 9 && *f <= 13)) f++;
+	int keyword = (*f >= 'a' && *f <= 'z') || (*f >= 'A' && *f <= 'Z');
+	if (has_ci(s, "inf") || (keyword && has_ci(s, "nan")) || has_ci(s, "0x") || has_ci(s, "file")) return 1;
 	for (const char *p = s; *p; ) {
 		if (*p >= '0' && *p <= '9') {
 			size_t n = 0;
@@ -132,6 +137,28 @@ static int get_value(double *v)
 	if (mpt_value_convert(val, 'd', v) < 0) return -1;
 	memcpy(&b, v, sizeof(b));
 	return b == sentinel ? 2 : 1;
+}
+/* text of a string / byte vector value */
+static void put_sval_sep(const MPT_STRUCT(value) *val, int sep)
+{
+	if (!val) { fputs("null", stdout); return; }
+	if (val->_type == 's') {
+		const char *str = *((const char * const *) val->_addr);
+		printf("str%c", sep);
+		if (!str) fputs("NULL", stdout);
+		else drv_puthex(stdout, (const uint8_t *) str, strlen(str));
+	}
+	else if (val->_type == MPT_type_toVector('c')) {
+		const struct iovec *vec = val->_addr;
+		printf("vec%c", sep);
+		drv_puthex(stdout, vec->iov_base, vec->iov_len);
+	}
+	else printf("other%c%d", sep, (int) val->_type);
+}
+static void put_sval(const MPT_STRUCT(value) *val)
+{
+	fputs("R ", stdout);
+	put_sval_sep(val, ' ');
 }
 static int no_probe;
 static void add_slot(MPT_INTERFACE(metatype) *mt, int select, double first)
@@ -225,11 +252,70 @@ int main(void)
 				if (i) sep = c; else txt = c;
 			}
 			if (bad) { puts("bad-op"); free(txt); free(sep); continue; }
-			if (txt && unmodelled(txt)) { puts("R unmodelled | C - | I -"); free(txt); free(sep); continue; }
+			if (txt && (unmodelled(txt) || has_ci(txt, "nan"))) { puts("R unmodelled | C - | I -"); free(txt); free(sep); continue; }
 			no_probe = 1;
 			add_slot(mpt_iterator_string(txt, sep), 1, -1);
 			no_probe = 0;
 			free(txt); free(sep);
+		}
+		else if ((!strcmp(op, "buffer") || !strcmp(op, "args")) && drv_nw == 3) {
+			/* it buffer|args <hex of the char array|null> : mpt_meta_buffer / mpt_meta_arguments */
+			MPT_STRUCT(array) a = MPT_ARRAY_INIT;
+			MPT_INTERFACE(metatype) *mt;
+			if (strcmp(drv_w[2], "null")) {
+				if (drv_parse_data(drv_w[2], &dat, &dlen, &isnull) || isnull) { puts("bad-op"); free(dat); continue; }
+				if (!mpt_array_append(&a, dlen, dat) && dlen) { puts("R append-failed | C - | I -"); free(dat); continue; }
+				free(dat);
+				if (!a._buf) {
+					/* empty data: a buffer without content */
+					if (!mpt_array_reserve(&a, 1, 0)) { puts("R reserve-failed | C - | I -"); continue; }
+				}
+				a._buf->_content_traits = mpt_type_traits('c');
+			}
+			mt = *op == 'b' ? mpt_meta_buffer(&a) : mpt_meta_arguments(&a);
+			mpt_array_clone(&a, 0);
+			no_probe = 1;
+			add_slot(mt, 1, -1);
+			no_probe = 0;
+		}
+		else if (!strcmp(op, "svalue") && drv_nw == 2) {
+			const MPT_STRUCT(value) *val;
+			if (cur < 0) { puts("bad-op"); continue; }
+			val = slot_it[cur]->_vptr->value(slot_it[cur]);
+			put_sval(val);
+			puts(" | C - | I -");
+		}
+		else if (!strcmp(op, "swalk") && drv_nw == 3) {
+			size_t cap, n = 0;
+			const char *stop = "cap";
+			if (cur < 0 || drv_parse_nat(drv_w[2], &cap) || cap > 4096) { puts("bad-op"); continue; }
+			fputs("R vals=", stdout);
+			while (n < cap) {
+				const MPT_STRUCT(value) *val = slot_it[cur]->_vptr->value(slot_it[cur]);
+				int r;
+				if (!val) { stop = "null"; break; }
+				if (n) fputc(',', stdout);
+				put_sval_sep(val, ':');
+				++n;
+				if ((r = slot_it[cur]->_vptr->advance(slot_it[cur])) < 0) { stop = "err"; break; }
+				if (!r) { stop = "end"; break; }
+			}
+			if (!n) fputc('-', stdout);
+			printf(" n=%zu stop=%s | C - | I -\n", n, stop);
+		}
+		else if (!strcmp(op, "from") && drv_nw == 3) {
+			/* it from lin|range|fac : the current iterator is the argument of the creator */
+			MPT_STRUCT(value) v = MPT_VALUE_INIT(0, 0);
+			MPT_INTERFACE(iterator) *src;
+			MPT_INTERFACE(metatype) *mt;
+			if (cur < 0) { puts("bad-op"); continue; }
+			src = slot_it[cur];
+			MPT_value_set(&v, MPT_ENUM(TypeIteratorPtr), &src);
+			if (!strcmp(drv_w[2], "lin")) mt = _mpt_iterator_linear(&v);
+			else if (!strcmp(drv_w[2], "range")) mt = _mpt_iterator_range(&v);
+			else if (!strcmp(drv_w[2], "fac")) mt = _mpt_iterator_factor(&v);
+			else { puts("bad-op"); continue; }
+			add_slot(mt, 0, -1);
 		}
 		else if (!strcmp(op, "use") && drv_nw == 3) {
 			size_t k;
@@ -281,7 +367,7 @@ int main(void)
 				if (*t == 'd') { if (b == sentinel) fputs("none", stdout); else put_num(dv, 1, 0); }
 				else if (*t == 'u') { if (uv == 0xdeadbeefU) fputs("none", stdout); else printf("%u", uv); }
 				else fputc('-', stdout);
-				printf(" | C - | I ret=%d\n", r);
+				printf(" | C - | I ret=%s\n", (*t == 's' || r) ? "type" : "0");
 			}
 		}
 		else if (!strcmp(op, "text") && drv_nw == 2) {
@@ -291,7 +377,7 @@ int main(void)
 			int r = MPT_metatype_convert(slot_mt[cur], 's', &txt);
 			if (r < 0) printf("R refused | C - | I ret=%s\n", drv_errname(r));
 			else if (!txt) printf("R null | C - | I ret=%d\n", r);
-			else { fputs("R text=", stdout); drv_puthex(stdout, (const uint8_t *) txt, strnlen(txt, 4096)); printf(" | C - | I ret=%d\n", r); }
+			else { fputs("R text=", stdout); drv_puthex(stdout, (const uint8_t *) txt, strnlen(txt, 4096)); puts(" | C - | I ret=iter"); }
 		}
 		else if (!strcmp(op, "walk") && drv_nw == 3) {
 			/* the documented loop of examples/iter.c, at most <cap> rounds */
